@@ -162,6 +162,19 @@ CHECKS = {
         "back-end capability table taken from SciPy's documentation.",
         "DESIGN.md §3 C08",
     ),
+    "C07": (
+        "model_checking",
+        "exhaustive enumeration of request sequences with the harness acting as the optimization algorithm (captured SciPy callables); truth-function / fresh-instance oracle and current-point model of callback invocations; Hypothesis for the full stack",
+        "The callables the plug-in hands to SciPy are captured and driven directly: every sequence of up to 3 (quick) / 4 (thorough) requests over "
+        "{objective, gradient, each normalized constraint value, each constraint Jacobian} x a pool of 3 points (two distinct, one equal copy; batches "
+        "for vectorized DE) x speculative x split_evaluations x {none, non-linear, linear, both} constraints x {slsqp, l-bfgs-b, cobyla, nelder-mead, "
+        "DE, vectorized DE}: every returned value must be the value at the requested point, the recorded callback invocations must never repeat a "
+        "quantity at the current point, never ask gradients for gradient-free methods, never ask both kinds under split_evaluations, and speculative "
+        "must not change any value. A Hypothesis layer runs the same grammar (length <=8, masks, several realizations) through Plan -> "
+        "EnsembleOptimizer -> plug-in with a recording evaluator and compares with fresh EnsembleEvaluator values and evaluator-call counts.",
+        "Pool points differ by much more than 1e-3(1+|x|); expected constraint values come from a fresh instance (normalization itself: C08).",
+        "DESIGN.md §3 C07",
+    ),
 }
 
 NOT_YET = "check not built yet in this session (planned, see DESIGN.md §3)"
